@@ -36,7 +36,7 @@ DIMS = {
     "alpn": [None, [b"h2", b"http/1.1"], [b"http/1.1"], [b"spdy/3"]],
     "psk_modes": [None, ["psk_ke"], ["psk_dhe_ke"]],
 }
-SERVER_CREDS = ["rsa", "ecdsa", "rsapss", "rsa+req", "rsa+reqnone", "ecdsa+req", "anon", "rsa+resume", "rsa+chain", "rsa+psk"]
+SERVER_CREDS = ["rsa", "ecdsa", "rsapss", "rsa+req", "rsa+reqnone", "ecdsa+req", "anon", "rsa+resume", "rsa+chain", "rsa+psk", "rsa+psk2"]
 
 
 def make_settings(choice):
@@ -266,10 +266,15 @@ def _run_pair(idx, cchoice, schoice, scred):
         ckw["session"] = prior
         skw_cache = cache
         ca = ""
-    elif ca == "psk":
+    elif ca in ("psk", "psk2"):
         # an external PSK configured on both sides (used by TLS 1.3 only); the server keeps its certificate
         for hs in (chs, shs):
             hs.pskConfigs = [(b"verif-psk", b"\x11" * 32, "sha256")]
+        if ca == "psk2":
+            # the client knows two more PSKs and offers them first; the server (which also issues tickets, so it
+            # tries to read unknown identities as tickets) knows only the last one
+            chs.pskConfigs = [(b"somebody-else", b"\x22" * 32, "sha256"), (b"sha384-psk", b"\x33" * 48, "sha384")] + list(chs.pskConfigs)
+            shs.ticketKeys = [bytearray(b"\x07" * 32)]
         skw_cache = None
         ca = ""
         use_psk = True
